@@ -787,10 +787,8 @@ Proof.
   eapply (vlooks_lookups V N A C); eauto. lia.
 Qed.
 
-(* the full statement: equality, i.e. also "the reading is undefined => the evaluation fails".  Proved for
-   straight-line traces (TraceProofs.build_computes_trace); for traces with bodies only the direction above is
-   proved (the converse needs the invariant that the graph environment binds nothing but the values read so
-   far, the constants and the CastLike outputs). *)
+(* the full statement: equality, i.e. also "the reading is undefined => the evaluation fails".  Proved in
+   TraceCFConvProofs.build_computes_trace_cf_eq under one more hypothesis ("?undefined" is not a defined name). *)
 Definition build_computes_trace_cf_full : Prop :=
   forall V sem truth trip of_nat of_bool lim lit_val cf fuel ins tr outs args,
   cf_trace tr = true ->
